@@ -74,7 +74,7 @@ def rule_canonical(ctx):
                 f = {x["name"]: render(strip(x["e"])).replace(" ", "") for x in s["fields"]}
                 if f.get("dir") == "false":
                     cs = conditions_to(al["body"], s) or []
-                    ok = any(c[0] == "arm" and render(c[2]).replace(" ", "") == "Ok(path)" and render(c[1]).replace(" ", "").startswith("fs::canonicalize(") for c in cs) and f.get("path") == "path"
+                    ok = any((c[0] == "arm" and render(c[2]).replace(" ", "") == "Ok(%s)" % f.get("path") and render(c[1]).replace(" ", "").startswith("fs::canonicalize(")) or (c[0] == "iflet" and c[3] and render(c[1]).replace(" ", "") == "Ok(%s)" % f.get("path") and render(c[2]).replace(" ", "").startswith("fs::canonicalize(")) for c in cs)
                     ctx.check(R, "add_libraries/library-file-path-is-canonical", ok, "Library %s under %s" % (f, facts_str(cs)), site(INC, s))
     # nothing else fills the stack
     other = []
